@@ -386,6 +386,82 @@ class PaperFn(WalletFn):
 
 CLASS_BYTES = {}
 
+NS_FIELDS = {"command": "command", "mnemonic_len": "mnemonic_len", "password": "password", "testnet": "testnet",
+             "master_xprv": "master_xprv", "mnemonic": "mnemonic", "seed_hex": "seed_hex", "entropy_hex": "entropy_hex",
+             "account": "account", "interval": "interval", "paranoia": "paranoia", "file": "file"}
+CTORS = {"PaperWallet.new_wallet": (["mnemonic_length", "password", "testnet"], "Wallet.newWallet P osRandom"),
+         "PaperWallet.from_extended_key": (["extended_key"], "CodeObj2.w_from_extended_key P"),
+         "PaperWallet.from_mnemonic": (["mnemonic", "password", "testnet"], "CodeObj2.w_from_mnemonic P"),
+         "PaperWallet.from_bip39_seed_hex": (["bip39_seed", "testnet"], "CodeObj2.w_from_bip39_seed_hex P"),
+         "PaperWallet.from_entropy_hex": (["entropy_hex", "password", "testnet"], "CodeObj2.w_from_entropy_hex P")}
+
+
+def emit_main(tree):
+    """`main()` after `parse_args`: an if / elif chain on `args.command` choosing the constructor, `generate`, the
+    optional `paranoia_mode`, and the output route.  The parsed `Namespace` is the record `Namespace` below; uncaught
+    exceptions are the outcome `reject`; `parser.print_help(); parser.exit(status=1)` is the outcome `help`;
+    `export_wallet(file_path=…, data=…)` / `pprint(data=…)` are `emit file data` / `emit stdout data`."""
+    fn = next((n for n in tree.body if isinstance(n, ast.FunctionDef) and n.name == "main"), None)
+    if fn is None or fn.args.args:
+        raise Unsupported("main not found / has parameters")
+    body = [b for b in fn.body if not (isinstance(b, ast.Expr) and isinstance(b.value, ast.Constant))]
+    if len(body) != 5 or ast.unparse(body[0]) != "parser, args = parse_args(sys.argv[1:])" or not isinstance(body[1], ast.If):
+        raise Unsupported("main has another shape")
+
+    def arg(e):
+        if isinstance(e, ast.Attribute) and isinstance(e.value, ast.Name) and e.value.id == "args" and e.attr in NS_FIELDS:
+            return "args.%s" % NS_FIELDS[e.attr]
+        raise Unsupported("argument expression " + ast.unparse(e))
+    branches, node = [], body[1]
+    while True:
+        t = node.test
+        if not (isinstance(t, ast.Compare) and ast.unparse(t.left) == "args.command" and len(t.ops) == 1 and
+                isinstance(t.ops[0], ast.Eq) and isinstance(t.comparators[0], ast.Constant) and
+                isinstance(t.comparators[0].value, str)):
+            raise Unsupported("dispatch test " + ast.unparse(t))
+        if len(node.body) != 1 or not isinstance(node.body[0], ast.Assign) or ast.unparse(node.body[0].targets[0]) != "wallet" \
+                or not isinstance(node.body[0].value, ast.Call):
+            raise Unsupported("dispatch branch")
+        call = node.body[0].value
+        q = ast.unparse(call.func)
+        if q not in CTORS or call.args:
+            raise Unsupported("constructor " + q)
+        params, lean = CTORS[q]
+        kw = {k.arg: k.value for k in call.keywords}
+        if set(kw) != set(params):
+            raise Unsupported("constructor arguments of " + q)
+        lit = "([" + ", ".join("Char.ofNat %d" % ord(c) for c in t.comparators[0].value) + "] : List Char)"
+        branches.append((lit, "(%s %s)" % (lean, " ".join(arg(kw[p_]) for p_ in params))))
+        if len(node.orelse) == 1 and isinstance(node.orelse[0], ast.If):
+            node = node.orelse[0]
+            continue
+        if [ast.unparse(x) for x in node.orelse] != ["wallet = None", "parser.print_help()", "parser.exit(status=1)"]:
+            raise Unsupported("final else of the dispatch")
+        break
+    if ast.unparse(body[2]) != "data = wallet.generate(account=args.account, interval=args.interval)":
+        raise Unsupported("generate call")
+    if ast.unparse(body[3]) != "if args.paranoia:\n    data = paranoia_mode(data=data)":
+        raise Unsupported("paranoia step")
+    if ast.unparse(body[4]) != ("if args.file:\n    wallet.export_wallet(file_path=args.file, data=data)\nelse:\n"
+                                "    wallet.pprint(data=data)"):
+        raise Unsupported("output step")
+    lines = ["structure Namespace where", "  command : List Char", "  mnemonic_len : Nat := 24", "  password : List Char := []",
+             "  testnet : Bool := false", "  master_xprv : List Char := []", "  mnemonic : List Char := []",
+             "  seed_hex : List Char := []", "  entropy_hex : List Char := []", "  account : Nat := 0",
+             "  interval : Nat × Nat := (0, 20)", "  paranoia : Bool := false", "  file : Bool := false", "",
+             "/-- translated from `__main__.py` : `main` (after `parse_args`) -/",
+             "def main_body {Pt : Type} (P : Prims Pt) (osRandom : Nat → Bytes) (args : Namespace) : Cli.Outcome :=",
+             "  let wallet : Option (Option Wallet.Wallet) :="]
+    for i, (lit, ctor) in enumerate(branches):
+        lines.append("    %sif args.command = %s then some %s" % ("" if i == 0 else "else ", lit, ctor))
+    lines.append("    else none")
+    lines += ["  match wallet with", "  | none => .help", "  | some none => .reject", "  | some (some wallet) =>",
+              "    match pw_generate P wallet args.account args.interval with", "    | none => .reject",
+              "    | some data =>", "      match (if args.paranoia = true then paranoia_mode data else some data) with",
+              "      | none => .reject",
+              "      | some data => .emit (if args.file = true then .file else .stdout) data", ""]
+    return "\n".join(lines)
+
 
 def translate_all():
     chunks, status = [], {}
@@ -453,13 +529,25 @@ def translate_all():
                 "def paranoia_mode (data : Wallet.Json) : Option Wallet.Json := Code.translationFailed _\n" % e)
         status["paranoia_mode"] = "FAILED: %s" % e
     chunks.append("/-- translated from `__main__.py` : `paranoia_mode` -/\n" + ptxt)
+    try:
+        if fatal:
+            raise Unsupported(fatal)
+        mtxt = emit_main(ast.parse(open(os.path.join(REPO, "btc_hd_wallet", "__main__.py"), encoding="utf-8").read()))
+        status["main_body"] = "ok"
+    except (Unsupported, SyntaxError, OSError) as e:
+        mtxt = ("-- TRANSLATION FAILED for main: %s\nstructure Namespace where\n  command : List Char\n"
+                "def main_body {Pt : Type} (P : Prims Pt) (osRandom : Nat → Bytes) (args : Namespace) : Cli.Outcome := "
+                "Code.translationFailed _\n" % e)
+        status["main_body"] = "FAILED: %s" % e
+    chunks.append(mtxt)
     hdr = ("-- GENERATED by harness/translate_obj3.py from /repo's working tree. Do not edit.\n"
            "import BtcHd.Generated.CodeObj2\nimport BtcHd.Model.PyJson\n\n"
            "set_option linter.unusedVariables false\n\n"
            "namespace BtcHd.CodeObj3\nopen BtcHd BtcHd.Code BtcHd.CodeObj BtcHd.CodeObj2\n\n"
            "/-- `self.watch_only` of the wallet (translated in CodeObj2) -/\n"
            "abbrev T2w (w : Wallet.Wallet) : Bool := CodeObj2.w_watch_only w\n\n"
-           "instance : Inhabited (Wallet.Json × List Wallet.Json) := ⟨(.null, [])⟩\n\n")
+           "instance : Inhabited (Wallet.Json × List Wallet.Json) := ⟨(.null, [])⟩\n"
+           "instance : Inhabited Cli.Outcome := ⟨.reject⟩\n\n")
     return hdr + "\n".join(chunks) + "\nend BtcHd.CodeObj3\n", status
 
 
